@@ -19,22 +19,7 @@ WHERE = ('start-1', 'start', 'start+1', 'mid_elem', 'mid_row', 'end-1', 'end')
 BIG = 16384
 
 
-class _Boom(RuntimeError):
-    pass
-
-
-def _iterable(objs, how, raise_at=None):
-    if raise_at is None and how == 'list':
-        return list(objs)
-
-    def g():
-        for j, o in enumerate(objs):
-            if raise_at is not None and j == raise_at:
-                raise _Boom('iterable failed (injected)')
-            yield o
-        if raise_at is not None and raise_at >= len(objs):
-            raise _Boom('iterable failed (injected)')
-    return g()
+from .arrayhist import Boom as _Boom, failing_iterable as _iterable   # noqa
 
 
 # =============================================================================
